@@ -236,9 +236,17 @@ def main(argv=None):
         if not os.path.exists(os.path.join(VERIF, "canaries", prop + ".json")):
             json.dump([], open(os.path.join(VERIF, "canaries", prop + ".json"), "w"))
         canary_report = run_canaries(prop)
+        # Self-test of the machinery on deliberately changed scratch copies.  Its outcome says how far a "held" verdict
+        # can be trusted; it is reported (here and in the evidence) but is not a verdict about /repo's current tree, so
+        # it does not change the exit code.
         for c in canary_report:
-            if not c["ok"]:
-                crashes.append((f"canary {c['name']}", f"expected {c['expect']}, check exited {c['exit']} — the engine did not behave as required on a deliberately changed copy"))
+            if c.get("skipped"):
+                print(f"SELFTEST {c['name']}: skipped ({c['skipped']})")
+            elif c["ok"]:
+                print(f"SELFTEST {c['name']}: ok (expected {c['expect']}, exit {c['exit']}) {' '.join(c.get('failed_obligations', [])[:2])}")
+            else:
+                what = "MISSED (a property-breaking change was not detected)" if c["expect"] == "violation" else "FALSE-ALARM (a property-preserving change was reported)"
+                print(f"SELFTEST {c['name']}: {what}; check exited {c['exit']}")
     wall = time.time() - t0
     if not args.no_evidence:
         ev = {
